@@ -30,7 +30,7 @@ from fsa.match import (
     str_eq_test,
 )
 from fsa.source import AnchorMissing, Unsupported, iter_own_nodes, stmt_key, text
-from rules.solver_common import SolverShape, expr, guard_atoms, mode_chain, series_stores, value_roles
+from rules.solver_common import NFView, SolverShape, expr, guard_atoms, mode_chain, series_stores, value_roles
 
 Q = 'fsic.core.models.BaseModel.solve_t'
 ALPHABET = {'UNSOLVED': '-', 'SOLVED': '.', 'FAILED': 'F', 'ERROR': 'E', 'SKIPPED': 'S'}
@@ -109,8 +109,10 @@ def r1_alphabet(R) -> None:
 
 
 def r2_policy_table(R, sh: SolverShape) -> None:
-    cur, prev = value_roles(sh)
-    nf_cur = [n for n in sh.tests() if sh.in_loop(n) and nonfinite_test(sh.expand(n.id, n.ast, stop=(cur, prev))) == cur]
+    nfv = NFView(sh)
+    cur, prev = nfv.cur, nfv.prev
+    # the test whose true edge means "this pass produced a non-finite value" (alone, or as one conjunct)
+    nf_cur = [n for n in nfv.tests('NF__cur') if nfv.implied_by_true_edge(n, 'NF__cur')]
     if not R.require(sh.q, len(nf_cur), f'test for non-finite values in `{cur}` after each pass', fi=sh.fi, pred=pred_call_attr('isfinite')):
         return
     nf = nf_cur[0]
@@ -235,32 +237,42 @@ def r2_policy_table(R, sh: SolverShape) -> None:
 
 
 def r3_previous_nonfinite(R, sh: SolverShape) -> None:
-    cur, prev = value_roles(sh)
-    nfp = [n for n in sh.tests() if sh.in_loop(n) and nonfinite_test(sh.expand(n.id, n.ast, stop=(cur, prev))) == prev]
-    nfc = [n for n in sh.tests() if sh.in_loop(n) and nonfinite_test(sh.expand(n.id, n.ast, stop=(cur, prev))) == cur]
+    """A pass that started from non-finite values is neither judged, nor handed to the error policy, nor allowed to end the
+    loop: it simply goes on to the next pass.  Decided on facts (NFView), whatever the shape of the tests."""
+    nfv = NFView(sh)
+    cur, prev = nfv.cur, nfv.prev
+    nfp, nfc = nfv.tests('NF__prev'), nfv.tests('NF__cur')
     if not R.require(sh.q, len(nfp), f'non-finite test of `{prev}` (previous pass)', fi=sh.fi, pred=pred_call_attr('isfinite')) \
             or not R.require(sh.q, len(nfc), f'non-finite test of `{cur}` (current pass)', fi=sh.fi, pred=pred_call_attr('isfinite')):
         return
-    p, c = nfp[0], nfc[0]
     conv, _ = sh.convergence_node()
-    R.check((p.id, 'F') in sh.guards_of(c.id), sh.q, 'prev-before-cur',
-            'the previous-pass non-finite test guards the current-pass test',
-            f'`{text(c.ast)}` can be reached without `{text(p.ast)}` being false (a pass starting from non-finite values is judged)',
-            where=sh.where(c), path=sh.path_to(c))
-    R.check((p.id, 'F') in sh.guards_of(conv.id), sh.q, 'prev-before-conv',
+    rows = [n for n in nfc if nfv.implied_by_true_edge(n, 'NF__cur')]
+    for c in rows:
+        for (b, lab) in c.succ:
+            if lab == 'T':
+                R.check(nfv.known(b, 'NF__prev', False), sh.q, 'prev-before-cur',
+                        'the error policy is entered only when the previous pass was finite',
+                        f'`{text(c.ast)[:60]}` can hand a pass that started from non-finite values to the error policy (previous-pass test not known false there)',
+                        where=sh.where(c), path=sh.path_to(c))
+    R.check(nfv.known(conv.id, 'NF__prev', False), sh.q, 'prev-before-conv',
             'the previous-pass non-finite test guards the convergence test',
             'the convergence test is reachable when the previous pass was non-finite', where=sh.where(conv))
-    R.check((c.id, 'F') in sh.guards_of(conv.id), sh.q, 'cur-before-conv',
+    R.check(nfv.known(conv.id, 'NF__cur', False), sh.q, 'cur-before-conv',
             'the current-pass non-finite test guards the convergence test',
             'the convergence test is reachable when the current pass is non-finite', where=sh.where(conv))
-    tsucc = [b for (b, lab) in p.succ if lab == 'T']
-    ok = all(must_pass(sh.cfg, b, x, [sh.loop.id]) for b in tsucc for x in (c.id, conv.id)) and \
-        all(not sh.cfg.reaches(b, sh.cfg.exit, avoid=[sh.loop.id]) for b in tsucc)
-    R.check(ok, sh.q, 'prev-continue', 'previous pass non-finite -> next pass', 'previous-non-finite branch does not simply continue',
-            where=sh.where(p))
-    # both tests come after the evaluation and the re-read
-    R.check(sh.n_eval.id in sh.dom[p.id] and sh.n_eval.id in sh.dom[c.id], sh.q, 'nonfinite-after-eval',
-            'non-finite tests follow the evaluation call', 'a non-finite test precedes the evaluation call', where=sh.where(p))
+    # with the previous pass non-finite, the pass cannot leave the loop: every break / return after the first test of it
+    first = [p for p in nfp if all(p.id in sh.dom[o.id] or p.id == o.id for o in nfp)]
+    exits = [n for n in sh.cfg.nodes if sh.in_loop(n) and n.loops[-1] == sh.loop.id and isinstance(n.ast, (ast.Break, ast.Return))]
+    bad = [n for n in exits if first and sh.cfg.reaches(first[0].id, n.id, avoid=[sh.loop.id]) and not nfv.known(n.id, 'NF__prev', False)]
+    R.check(not bad, sh.q, 'prev-continue', 'previous pass non-finite -> next pass',
+            f'`{bad[0].label()[:50]}` can end the loop while the previous pass is non-finite' if bad else '', where=sh.where(bad[0]) if bad else '')
+    # the values tested are those of this pass: every test / flag definition mentioning them follows the evaluation call
+    sites = list(nfp) + list(nfc)
+    for n in sh.cfg.nodes:
+        if n.kind == 'stmt' and isinstance(n.ast, ast.Assign) and sh.in_loop(n) and any(isinstance(x, ast.Call) and dotted(x.func) in ('np.isfinite', 'numpy.isfinite') for x in ast.walk(n.ast.value)):
+            sites.append(n)
+    R.check(all(sh.n_eval.id in sh.dom[n.id] for n in sites), sh.q, 'nonfinite-after-eval',
+            'non-finite tests follow the evaluation call', 'a non-finite test precedes the evaluation call', where=sh.where(sites[0]))
 
 
 def _parents(fnode: ast.AST) -> Dict[int, ast.AST]:
@@ -320,13 +332,24 @@ def r4_exception_discipline(R, sh: SolverShape) -> None:
                 # E bookkeeping under errors == 'raise' before the raise
                 has_e = has_i = False
                 for x in h.body:
-                    if isinstance(x, ast.If) and str_eq_test(x.test) == ('errors', 'raise', True):
+                    if not isinstance(x, ast.If):
+                        continue
+                    test_, alias = x.test, {}
+                    # `v is not None` with v = (<pass counter> if <c> else None): the same as <c>, and v is the counter there
+                    if isinstance(test_, ast.Compare) and len(test_.ops) == 1 and isinstance(test_.ops[0], ast.IsNot) and isinstance(test_.left, ast.Name) \
+                            and is_const(test_.comparators[0], None):
+                        tn_ = [k for k in sh.cfg.nodes if k.ast is test_]
+                        vals = sh.lf.values_reaching(tn_[0].id, test_.left.id) if tn_ else []
+                        if len(vals) == 1 and isinstance(vals[0][1], ast.IfExp) and is_const(vals[0][1].orelse, None) and text(vals[0][1].body) == sh.counter:
+                            alias = {test_.left.id: sh.counter}
+                            test_ = vals[0][1].test
+                    if str_eq_test(test_) == ('errors', 'raise', True):
                         for y in x.body:
                             if isinstance(y, ast.Assign) and len(y.targets) == 1 and isinstance(y.targets[0], ast.Subscript):
                                 tg = y.targets[0]
                                 if text(tg.value) == 'self.status' and text(tg.slice) == 't' and enum_value_ref(y.value) == 'ERROR':
                                     has_e = True
-                                if text(tg.value) == 'self.iterations' and text(tg.slice) == 't' and text(y.value) == sh.counter:
+                                if text(tg.value) == 'self.iterations' and text(tg.slice) == 't' and alias.get(text(y.value), text(y.value)) == sh.counter:
                                     has_i = True
                 R.check(has_e and has_i, sh.q, 'eval-handler-bookkeeping',
                         "evaluation-pass exception records 'E' and the pass number under errors == 'raise'",
@@ -480,6 +503,8 @@ def r7_solved_flag(R) -> None:
     from rules import c02, c05
     c02.r9_solve_period(R)
     c05.r1_solve_loop(R)
+    if hits != 1 and any(isinstance(c_, (ast.ListComp, ast.GeneratorExp)) and any(is_self_call(y, 'solve_t') for y in ast.walk(c_)) for c_ in iter_own_nodes(fi.node)):
+        raise Unknown(f'{q}: the flags are collected by a comprehension over self.solve_t(...); not read here')
     R.check(hits == 1, q, 'solved-flag', 'solve() records the flag returned by solve_t per period',
             'solve() does not store the result of self.solve_t(...) in solved[i]', where=fi.where)
 
